@@ -87,6 +87,52 @@ theorem heap_pickleOK : Within ct PickleOK heap 3 (.ref 0) := by
 
 end Ex
 
+namespace Ex2
+
+/-- `creator.create("FitnessC", base.ConstrainedFitness, weights=(-1.0,))` (class 0) and
+`creator.create("Individual", list, fitness=creator.FitnessC)` (class 1, `dict_inst` attribute 1):
+creating an individual creates its constrained fitness, on which `base.__init__` sets
+`constraint_violation = None`. -/
+def ct : ClassTable :=
+  [ ⟨.cfitness, [], [(7, .atom (-1))]⟩,
+    ⟨.plain, [(1, 0)], []⟩ ]
+
+theorem ct_ok : CTOk ct := by
+  intro c ci h p hp
+  rcases c with _ | _ | c
+  · simp [ct] at h; subst h; simp at hp
+  · simp [ct] at h; subst h; simp at hp; subst hp; decide
+  · simp [ct] at h
+
+theorem ct_nodup : DictNodup ct := by
+  intro c ci h
+  rcases c with _ | _ | c
+  · simp [ct] at h; subst h; simp
+  · simp [ct] at h; subst h; simp
+  · simp [ct] at h
+
+/-- The only fitness class of the table has no `dict_inst` attributes. -/
+theorem ct_createOK (c : ClsId) : CreateOK ct c := by
+  intro c' ci _ h hk
+  rcases c' with _ | _ | c'
+  · simp [ct] at h; subst h; rfl
+  · simp [ct] at h; subst h; rcases hk with hk | hk <;> cases hk
+  · simp [ct] at h
+
+end Ex2
+
+namespace Ex
+
+/-- The module `deap.creator` of the pickling interpreter: the classes of `Ex.ct`, the individual
+class (class 1, `dict_cls` attribute `9 ↦ 3`) bound to the name 5 … -/
+def modSrc : Module := ⟨ct, [(4, 0), (5, 1), (6, 2)]⟩
+
+/-- … and of an unpickling interpreter in which the name 5 is already bound to a *different*
+individual class (`dict_cls` attribute `9 ↦ 4`, no fitness). -/
+def modDst : Module := ⟨[⟨.plain, [], [(9, .atom 4)]⟩], [(5, 0)]⟩
+
+end Ex
+
 /-- `Within ct CopyOK` for the swarm of `Ex.heap`: the swarm (kind `ctor`, whose copy hook calls
 the class) still has its `dict_inst` attribute, the fitness has no `__dict__` entries and numeric
 `wvalues`. -/
